@@ -11,9 +11,9 @@ package e2e
 import (
 	"context"
 	"encoding/json"
-	"reflect"
 	"errors"
 	"fmt"
+	"reflect"
 	"regexp"
 	"sort"
 	"strings"
@@ -144,8 +144,11 @@ func c14Renderings(sec string, quick bool) map[string]string {
 	}
 	vals := map[string]val{"value": {s, false}, "pointer": {&s, true}, "struct": {h, false}, "ptrstruct": {&h, true}, "slice": {[]configopaque.String{s}, false},
 		"array": {[1]configopaque.String{s}, false}, "map": {map[string]configopaque.String{"k": s}, false}, "any": {any(s), false}, "anyslice": {[]any{s}, false},
-		"nested": {struct{ In struct{ L []configopaque.String } }{In: struct{ L []configopaque.String }{L: []configopaque.String{s}}}, false},
-		"ptrslice": {[]*configopaque.String{&s}, true}}
+		"nested": {struct {
+			In struct{ L []configopaque.String }
+		}{In: struct{ L []configopaque.String }{L: []configopaque.String{s}}}, false},
+		"ptrslice": {[]*configopaque.String{&s}, true},
+		"keymap":   {map[configopaque.String]int{s: 1}, false}, "keymapb": {map[configopaque.String]configopaque.String{s: s, s + "-2": s}, false}}
 	flags := c14Flags()
 	wps := []string{"", "1", ".1", "20.3"}
 	if quick {
@@ -243,6 +246,48 @@ func c14Renderings(sec string, quick bool) map[string]string {
 			out[name] = fmt.Sprint(m) + " " + string(jb)
 		}
 	}
+	// opaque strings as map KEYS, one entry and several (all keys encode to the same marker: whatever the encoder says
+	// about that is part of what marshalling reveals), directly, nested, behind a pointer and behind an interface
+	s2 := s + "-2"
+	km1 := map[configopaque.String]int{s: 1}
+	km2 := map[configopaque.String]int{s: 1, s2: 2}
+	km3 := map[configopaque.String]configopaque.String{s: s, s2: s2, s + "-3": s}
+	for name, v := range map[string]any{
+		"confmap:opaque-map-key:one-entry": struct {
+			T map[configopaque.String]int `mapstructure:"t"`
+		}{km1},
+		"confmap:opaque-map-key:two-entries": struct {
+			T map[configopaque.String]int `mapstructure:"t"`
+		}{km2},
+		"confmap:opaque-map-key:three-entries-opaque-values": struct {
+			T map[configopaque.String]configopaque.String `mapstructure:"t"`
+		}{km3},
+		"confmap:opaque-map-key:nested-in-slice-of-structs": struct {
+			L []struct {
+				T map[configopaque.String]int `mapstructure:"t"`
+			} `mapstructure:"l"`
+		}{[]struct {
+			T map[configopaque.String]int `mapstructure:"t"`
+		}{{km1}, {km2}}},
+		"confmap:opaque-map-key:behind-pointer": struct {
+			T *map[configopaque.String]int `mapstructure:"t"`
+		}{&km2},
+		"confmap:opaque-map-key:behind-any": struct {
+			T any `mapstructure:"t"`
+		}{km2},
+		"confmap:opaque-map-key:map-of-maps": struct {
+			T map[string]map[configopaque.String]int `mapstructure:"t"`
+		}{map[string]map[configopaque.String]int{"a": km2}},
+	} {
+		c = confmap.New()
+		if err := c.Marshal(v); err != nil {
+			out[name] = "ERR " + err.Error()
+		} else {
+			m := c.ToStringMap()
+			jb, _ := json.Marshal(c14Plain(m))
+			out[name] = fmt.Sprint(m) + " " + string(jb)
+		}
+	}
 	hc := confighttp.NewDefaultClientConfig()
 	hc.Headers = map[string]configopaque.String{"authorization": s, "x": s}
 	c = confmap.New()
@@ -332,16 +377,16 @@ type C14UOuterOwnOwn struct {
 func (o *C14UOuterOwnOwn) Unmarshal(c *confmap.Conf) error { return c.Unmarshal(o) }
 
 type c14UTargets struct {
-	OuterOwnPlain C14UOuterOwnPlain `mapstructure:"outer_own_plain"`
-	OuterOwnOwn   C14UOuterOwnOwn   `mapstructure:"outer_own_own"`
-	S      configopaque.String            `mapstructure:"s"`
-	P      *configopaque.String           `mapstructure:"p"`
-	M      map[string]configopaque.String `mapstructure:"m"`
-	L      []configopaque.String          `mapstructure:"l"`
-	Nested C14UPlain                      `mapstructure:"nested"`
-	NPtr   *C14UPlain                     `mapstructure:"nptr"`
-	Own    C14UOwn                        `mapstructure:"own"`
-	Squash struct {
+	OuterOwnPlain C14UOuterOwnPlain              `mapstructure:"outer_own_plain"`
+	OuterOwnOwn   C14UOuterOwnOwn                `mapstructure:"outer_own_own"`
+	S             configopaque.String            `mapstructure:"s"`
+	P             *configopaque.String           `mapstructure:"p"`
+	M             map[string]configopaque.String `mapstructure:"m"`
+	L             []configopaque.String          `mapstructure:"l"`
+	Nested        C14UPlain                      `mapstructure:"nested"`
+	NPtr          *C14UPlain                     `mapstructure:"nptr"`
+	Own           C14UOwn                        `mapstructure:"own"`
+	Squash        struct {
 		C14UPlain `mapstructure:",squash"`
 		Name      string `mapstructure:"name"`
 	} `mapstructure:"squash"`
@@ -362,8 +407,8 @@ func c14PositiveAll(sec string) map[string]string {
 	in := map[string]any{
 		"s": sec, "p": sec, "m": map[string]any{"h": sec}, "l": []any{sec, sec},
 		"nested": one, "nptr": one, "own": one,
-		"squash":     map[string]any{"token": sec, "other": "x", "name": "n"},
-		"squash_own": map[string]any{"token": sec, "other": "x", "name": "n"},
+		"squash":          map[string]any{"token": sec, "other": "x", "name": "n"},
+		"squash_own":      map[string]any{"token": sec, "other": "x", "name": "n"},
 		"outer_own_plain": map[string]any{"token": sec, "other": "x", "name": "n"},
 		"outer_own_own":   map[string]any{"token": sec, "other": "x", "name": "n"},
 	}
@@ -375,7 +420,7 @@ func c14PositiveAll(sec string) map[string]string {
 	got := map[string]string{
 		"field": string(tgt.S), "map-value": string(tgt.M["h"]), "nested-struct": string(tgt.Nested.Token),
 		"struct-with-own-unmarshal": string(tgt.Own.Token), "squashed-embedded-struct": string(tgt.Squash.Token),
-		"squashed-embedded-struct-with-own-unmarshal": string(tgt.SquashOwn.Token),
+		"squashed-embedded-struct-with-own-unmarshal":                     string(tgt.SquashOwn.Token),
 		"struct-with-own-unmarshal-embedding-a-plain-struct":              string(tgt.OuterOwnPlain.Token),
 		"struct-with-own-unmarshal-embedding-a-struct-with-own-unmarshal": string(tgt.OuterOwnOwn.Token),
 	}
@@ -445,9 +490,8 @@ func (p c14Prov) Retrieve(_ context.Context, uri string, _ confmap.WatcherFunc) 
 	}
 	return confmap.NewRetrievedFromYAML([]byte(p.sec))
 }
-func (c14Prov) Scheme() string                   { return "zz" }
-func (c14Prov) Shutdown(context.Context) error   { return nil }
-
+func (c14Prov) Scheme() string                 { return "zz" }
+func (c14Prov) Shutdown(context.Context) error { return nil }
 
 func c14PathClass(k string) string {
 	p := strings.SplitN(k, ":", 3)
